@@ -11,14 +11,16 @@ import (
 	"sort"
 	"strings"
 	"testing"
+	"testing/synctest"
 	"time"
 
+	"github.com/OffchainLabs/go-bitfield"
 	eth2api "github.com/attestantio/go-eth2-client/api"
 	eth2v1 "github.com/attestantio/go-eth2-client/api/v1"
 	eth2spec "github.com/attestantio/go-eth2-client/spec"
 	"github.com/attestantio/go-eth2-client/spec/altair"
 	eth2p0 "github.com/attestantio/go-eth2-client/spec/phase0"
-	"github.com/OffchainLabs/go-bitfield"
+	"github.com/jonboulle/clockwork"
 
 	"github.com/obolnetwork/charon/core"
 	"github.com/obolnetwork/charon/testutil"
@@ -499,6 +501,65 @@ func c06check(x *schedx.Exec) []schedx.Violation {
 
 // ---- scenarios ----------------------------------------------------------------------------------------------
 
+// c06stalledExpiry: "data for expired duties is refused" when the deadliner's goroutine is stalled while the deadline
+// passes (a busy or descheduled process): the duty is still in the deadliner's set, its timer has fired but has not
+// been handled, and a Store for it arrives. The deadliner runs on a fake clock moved by the harness; its goroutine
+// is stalled inside the deadline function while it registers a never-expiring duty. Both select orders (env selmode).
+func c06stalledExpiry(attD core.Duty, X, X2 c06item) *schedx.Scenario {
+	sc := &schedx.Scenario{Name: "att-expiry-while-deadliner-stalled", Params: map[string]any{}, EnvDims: map[string]int{"selmode": 2}}
+	sc.Setup = func(x *schedx.Exec) {
+		fc := clockwork.NewFakeClock()
+		t0 := fc.Now()
+		var stall bool
+		stalled, release := make(chan struct{}), make(chan struct{})
+		exitD := core.NewVoluntaryExit(99)
+		dl := core.NewDeadlinerForT(x.Ctx, x.TB, func(duty core.Duty) (time.Time, bool) {
+			if duty.Type == core.DutyExit {
+				if stall {
+					stall = false
+					close(stalled)
+					<-release
+				}
+				return time.Time{}, false
+			}
+			return t0.Add(10 * time.Second), true
+		}, fc)
+		d := &c06data{expiry: map[core.Duty]time.Duration{attD: 10 * time.Second}, cancels: map[string]context.CancelFunc{}}
+		x.Data = d
+		d.db = NewMemDB(dl)
+		rec := func(name string, it c06item, at time.Duration, err error) {
+			d.seq++
+			r := &c06rec{op: c06op{kind: "S", name: name, duty: attD, items: []c06item{it}}, started: true, done: true, tStart: at, tDone: at, err: err, sseq: d.seq}
+			d.seq++
+			r.seq = d.seq
+			d.recs = append(d.recs, r)
+			x.Obs("%s=%v@%s", name, err != nil, at)
+		}
+		rec("pre.sX", X, 0, d.db.Store(x.Ctx, attD, core.UnsignedDataSet{X.pk: X.data}))
+		stall = true
+		go dl.Add(exitD)
+		<-stalled
+		fc.Advance(11 * time.Second) // the attester duty's timer fires, nobody handles it yet
+		var lateErr error
+		done := make(chan struct{})
+		go func() {
+			lateErr = d.db.Store(x.Ctx, attD, core.UnsignedDataSet{X2.pk: X2.data})
+			close(done)
+		}()
+		synctest.Wait()
+		close(release)
+		<-done
+		rec("pre.sLate", X2, 11*time.Second, lateErr)
+	}
+	sc.StateKey = func(x *schedx.Exec) string { return c06dump(x.Data.(*c06data).db) }
+	sc.Outcome = func(x *schedx.Exec) string {
+		d := x.Data.(*c06data)
+		return fmt.Sprint(d.recs[len(d.recs)-1].err != nil)
+	}
+	sc.Check = func(x *schedx.Exec) []schedx.Violation { return c06check(x) }
+	return sc
+}
+
 func c06scenarios() []*schedx.Scenario {
 	thorough := schedx.Tier() == "thorough"
 	attD := core.NewAttesterDuty(10)
@@ -509,10 +570,10 @@ func c06scenarios() []*schedx.Scenario {
 
 	X := c06att("X", PA, 10, 3, 1, 0x11, 1)
 	X2 := c06att("X'", PA, 10, 3, 1, 0x11, 1)
-	Y := c06att("Y", PA, 10, 3, 1, 0x99, 1)       // same key, other head: clash
-	Z := c06att("Z", PB, 10, 4, 2, 0x99, 1)       // other committee, other head, same source/target: alias accepted, first stays
-	W := c06att("W", PB, 10, 4, 2, 0x11, 7)       // other committee, other source: alias clash after storing its own key
-	Kc := c06att("Kc", PB, 10, 3, 1, 0x11, 1)     // same (slot,comm,val) but another pubkey: clashing public key
+	Y := c06att("Y", PA, 10, 3, 1, 0x99, 1)   // same key, other head: clash
+	Z := c06att("Z", PB, 10, 4, 2, 0x99, 1)   // other committee, other head, same source/target: alias accepted, first stays
+	W := c06att("W", PB, 10, 4, 2, 0x11, 7)   // other committee, other source: alias clash after storing its own key
+	Kc := c06att("Kc", PB, 10, 3, 1, 0x11, 1) // same (slot,comm,val) but another pubkey: clashing public key
 	P := c06pro("P", PA, 10, 1)
 	P2 := c06pro("P'", PA, 10, 1)
 	Q := c06pro("Q", PA, 10, 2)
@@ -529,11 +590,15 @@ func c06scenarios() []*schedx.Scenario {
 	DP := c06con("DP", PB, c2, c1d) // second entry clashes after the first was stored
 	C2b := c06con("C2b", PB, c06contribRaw(10, 2, 0x44, 0x03))
 
-	S := func(n string, duty core.Duty, items ...c06item) c06op { return c06op{kind: "S", name: n, duty: duty, items: items} }
+	S := func(n string, duty core.Duty, items ...c06item) c06op {
+		return c06op{kind: "S", name: n, duty: duty, items: items}
+	}
 	RA := func(n string, slot, comm uint64) c06op {
 		return c06op{kind: "RA", name: n, slot: slot, a: comm, key: fmt.Sprintf("att/%d/%d", slot, comm)}
 	}
-	RP := func(n string, slot uint64) c06op { return c06op{kind: "RP", name: n, slot: slot, key: fmt.Sprintf("pro/%d", slot)} }
+	RP := func(n string, slot uint64) c06op {
+		return c06op{kind: "RP", name: n, slot: slot, key: fmt.Sprintf("pro/%d", slot)}
+	}
 	RG := func(n string, slot uint64, root eth2p0.Root) c06op {
 		return c06op{kind: "RG", name: n, slot: slot, root: root, key: fmt.Sprintf("agg/%d/%x/0", slot, root[:4])}
 	}
@@ -592,6 +657,7 @@ func c06scenarios() []*schedx.Scenario {
 	scs = append(scs, c06scenario("att-expiry", name([][]c06op{
 		T(S("sX", attD, X)), T(RA("ra", 10, 3)), T(S("sY", attD, Y)), T(S("sL", core.NewAttesterDuty(20), late), RA("ra2", 10, 3)),
 	}), []time.Duration{11 * time.Second}, exp, 1))
+	scs = append(scs, c06stalledExpiry(attD, X, X2))
 	if thorough {
 		add("att-3readers-2writers", 2, T(RA("ra3", 10, 3)), T(RA("ra0", 10, 0)), T(RA("ra4", 10, 4)), T(S("sX", attD, X)), T(S("sZY", attD, Z, Y)))
 		add("pro-att-cancel-mix", 1, T(RP("rp", 10)), T(RA("ra", 10, 3)), T(C("c", "T0")), T(S("sX", attD, X), S("sP", proD, P)), T(S("sQ", proD, Q)))
